@@ -49,6 +49,26 @@ elif PID == 'C07':
 
     def to_case(data):
         return {'kind': 'bytes', 'bytes': list(data)}
+elif PID == 'C08':
+    from checks import c08_smf_conformance as mod
+
+    def to_case(data):
+        # structure-aware: the fuzzer's bytes are the header fields and the track BODIES; chunk framing (lengths, the
+        # closing end_of_track) is added here, so that mutations explore event encodings instead of dying on a length
+        import struct
+        if len(data) < 4 or data[:4] == b'MThd':
+            return {'kind': 'bytes', 'bytes': list(data)}
+        fmt = data[0] % 3
+        ntr = 1 if fmt == 0 else 1 + data[1] % 3
+        extra = data[1] >> 6
+        tpb = ((data[2] << 8 | data[3]) % 0x7FFF) + 1
+        body = data[4:]
+        step = (len(body) + ntr - 1) // ntr if body else 0
+        out = b'MThd' + struct.pack('>IHHH', 6 + extra, fmt, ntr, tpb) + bytes(extra)
+        for k in range(ntr):
+            part = body[k * step:(k + 1) * step] + b'\x00\xff\x2f\x00'
+            out += b'MTrk' + struct.pack('>I', len(part)) + part
+        return {'kind': 'bytes', 'bytes': list(out)}
 elif PID == 'C14':
     from checks import c14_text as mod
 
